@@ -1,2 +1,250 @@
-import FpgoVerif.Model.C18
-/-! Property theorems for C18 (none yet). -/
+import FpgoVerif.Proofs.C18
+/-! Property theorems for C18 — "Interceptors run once each, in order, before the transport; an error
+    aborts".  All statements are about the definitions the driver executes (`recursiveVisit`,
+    `setHTTPClient`, `addInterceptor`, … of Model/C18.lean). -/
+namespace FpgoVerif.C18
+
+/-! ## the specification has the shape the property states -/
+
+/-- **once each, in registration order.**  The interceptors invoked for a request form a prefix of the
+    registered list (so every registered occurrence runs at most once, and in order). -/
+theorem C18_spec_prefix (beh : Nat → Req → Req × Bool) (t : Tr) (is : List Nat) (req : Req) :
+    icptIds (Spec.visit beh t is req).1 <+: is := by
+  induction is generalizing req with
+  | nil => simp [Spec.visit, icptIds]
+  | cons i rest ih =>
+    unfold Spec.visit
+    by_cases hf : (beh i req).2 = true
+    · simp only [hf, if_true, icptIds]
+      exact ⟨rest, rfl⟩
+    · have hf' : (beh i req).2 = false := by simpa using hf
+      simp only [hf', Bool.false_eq_true, if_false]
+      obtain ⟨r, hr⟩ := ih (beh i req).1
+      refine ⟨r, ?_⟩
+      show i :: (icptIds (Spec.visit beh t rest (beh i req).1).1 ++ r) = i :: rest
+      rw [hr]
+
+/-- **no error: all run, then the transport sees the request exactly once, with every header change.** -/
+theorem C18_spec_ok (beh : Nat → Req → Req × Bool) (t : Tr) (is : List Nat) (req : Req)
+    (h : (Spec.visit beh t is req).2 = .ok) :
+    icptIds (Spec.visit beh t is req).1 = is ∧
+    transports (Spec.visit beh t is req).1 = [(t, thread beh req is)] ∧
+    (Spec.visit beh t is req).1.getLast? = some (.transport t (thread beh req is)) := by
+  induction is generalizing req with
+  | nil => simp [Spec.visit, icptIds, transports, thread]
+  | cons i rest ih =>
+    unfold Spec.visit at h ⊢
+    by_cases hf : (beh i req).2 = true
+    · simp [hf] at h
+    · have hf' : (beh i req).2 = false := by simpa using hf
+      simp only [hf', Bool.false_eq_true, if_false] at h ⊢
+      obtain ⟨h1, h2, h3⟩ := ih (beh i req).1 h
+      refine ⟨by simp [icptIds, h1], by simp [transports, h2, thread], ?_⟩
+      have hne : (Spec.visit beh t rest (beh i req).1).1 ≠ [] := by
+        intro e; simp [e] at h3
+      rw [List.getLast?_cons_of_ne_nil hne] <;> simp [h3, thread]
+
+/-- **an error aborts:** the failing interceptor is the last thing invoked — later interceptors and the
+    transport are not — it saw the headers its predecessors left, every predecessor passed, and its
+    error is the result. -/
+theorem C18_spec_err (beh : Nat → Req → Req × Bool) (t : Tr) (is : List Nat) (req : Req) (i : Nat)
+    (h : (Spec.visit beh t is req).2 = .err i) :
+    transports (Spec.visit beh t is req).1 = [] ∧
+    ∃ pre post, is = pre ++ i :: post ∧ icptIds (Spec.visit beh t is req).1 = pre ++ [i] ∧
+      (beh i (thread beh req pre)).2 = true ∧
+      (Spec.visit beh t is req).1.getLast? = some (.icpt i (thread beh req pre)) := by
+  induction is generalizing req with
+  | nil => simp [Spec.visit] at h
+  | cons j rest ih =>
+    unfold Spec.visit at h ⊢
+    by_cases hf : (beh j req).2 = true
+    · simp only [hf, if_true] at h ⊢
+      have hji : j = i := by injection h
+      subst hji
+      exact ⟨rfl, [], rest, rfl, rfl, hf, rfl⟩
+    · have hf' : (beh j req).2 = false := by simpa using hf
+      simp only [hf', Bool.false_eq_true, if_false] at h ⊢
+      obtain ⟨h1, pre, post, h2, h3, h4, h5⟩ := ih (beh j req).1 h
+      refine ⟨by simp [transports, h1], j :: pre, post, by simp [h2], by simp [icptIds, h3], by simpa [thread] using h4, ?_⟩
+      have hne : (Spec.visit beh t rest (beh j req).1).1 ≠ [] := by
+        intro e; simp [e] at h5
+      rw [List.getLast?_cons_of_ne_nil hne]
+      simpa [thread] using h5
+
+/-- the result of a request is success or the error of a registered interceptor — never a panic/crash -/
+theorem C18_spec_total (beh : Nat → Req → Req × Bool) (t : Tr) (is : List Nat) (req : Req) :
+    (Spec.visit beh t is req).2 = .ok ∨ ∃ i ∈ is, (Spec.visit beh t is req).2 = .err i := by
+  induction is generalizing req with
+  | nil => simp [Spec.visit]
+  | cons j rest ih =>
+    unfold Spec.visit
+    by_cases hf : (beh j req).2 = true
+    · simp [hf]
+    · have hf' : (beh j req).2 = false := by simpa using hf
+      simp only [hf', Bool.false_eq_true, if_false]
+      rcases ih (beh j req).1 with h | ⟨i, hi, h⟩
+      · exact Or.inl h
+      · exact Or.inr ⟨i, by simp [hi], h⟩
+
+/-! ## the code's index-walking `recursiveVisit` is that specification -/
+
+/-- **visit clause.**  Whenever the wrapped transport is not the SimpleHTTP itself, `RoundTrip`
+    (= `recursiveVisit request 0`, any sufficient fuel) produces exactly the prescribed call log and result,
+    for every interceptor list, behaviour and request. -/
+theorem C18_visit (beh : Nat → Req → Req × Bool) (s : SH) (t : Tr) (ht : s.clientTransport = some t)
+    (hne : t ≠ .self) (fuel : Nat) (hfuel : s.interceptors.length + 1 ≤ fuel) (req : Req) :
+    recursiveVisit beh s fuel req 0 = Spec.visit beh t s.interceptors req := by
+  have := visit_eq beh s t ht hne fuel req 0 (Nat.zero_le _) (by omega)
+  simpa using this
+
+/-- non-vacuity + a concrete instance: interceptors 3,5,3 with 5 failing -/
+example : recursiveVisit (behOf [5]) ⟨[3, 5, 3], 0, some (.stub 1), some .self⟩ 10 [] 0 =
+    ([.icpt 3 [], .icpt 5 [3]], .err 5) := by decide
+
+/-- a wrapped transport that IS the SimpleHTTP (what a double wrap would produce) runs the chain again and
+    again — the model's `crash` (Go: fatal stack overflow) -/
+theorem C18_self_transport_recurses :
+    (recursiveVisit (behOf []) ⟨[1], 0, some .self, some .self⟩ 8 [] 0) =
+      ([.icpt 1 [], .icpt 1 [1], .icpt 1 [1, 1], .icpt 1 [1, 1, 1]], .crash) := by decide
+
+/-! ## bookkeeping -/
+
+/-- **bookkeeping clause.**  After any history of `AddInterceptor` / `RemoveInterceptor` /
+    `ClearInterceptor` (any argument lists, duplicates allowed) the registered list is: appended in order;
+    every occurrence of every named pointer removed, the others untouched and in order; empty. -/
+theorem C18_book (s : SH) (ops : List Op) :
+    (ops.foldl applyOp s).interceptors = Spec.book s.interceptors ops := by
+  induction ops generalizing s with
+  | nil => rfl
+  | cons op ops ih =>
+    rw [List.foldl_cons, ih]
+    cases op with
+    | add xs => simp [applyOp, addInterceptor, foldl_append_eq, Spec.book]
+    | rem xs => simp [applyOp, removeInterceptor, foldl_minus_eq, Spec.book]
+    | clear => simp [applyOp, clearInterceptor, Spec.book]
+
+/-- bookkeeping touches nothing but the list -/
+theorem C18_book_frame (s : SH) (ops : List Op) :
+    (ops.foldl applyOp s).client = s.client ∧ (ops.foldl applyOp s).clientTransport = s.clientTransport ∧
+    (ops.foldl applyOp s).lastTransport = s.lastTransport := by
+  induction ops generalizing s with
+  | nil => exact ⟨rfl, rfl, rfl⟩
+  | cons op ops ih =>
+    rw [List.foldl_cons]
+    obtain ⟨h1, h2, h3⟩ := ih (applyOp s op)
+    cases op <;> simp_all [applyOp, addInterceptor, removeInterceptor, clearInterceptor]
+
+example : (([Op.add [1, 2, 1], .rem [1], .add [3, 3]].foldl applyOp ⟨[0], 0, none, none⟩).interceptors) = [0, 2, 3, 3] := by
+  decide
+
+/-! ## SetHTTPClient: never wrapped twice, never recursive -/
+
+/-- the invariant: the current client's transport is the SimpleHTTP, the wrapped transport is not -/
+structure Inv (s : SH) (cs : Clients) : Prop where
+  client : cs[s.client]? = some (some Tr.self)
+  last : s.lastTransport = some .self
+  wrapped : ∃ t, s.clientTransport = some t ∧ t ≠ .self
+
+theorem setHTTPClient_inv (s : SH) (cs : Clients) (c : Nat) (hc : c < cs.length)
+    (h : s.lastTransport = some .self ∧ (∃ t, s.clientTransport = some t ∧ t ≠ .self) ∨
+         s.lastTransport = none ∧ ∀ k : Nat, cs[k]? ≠ some (some Tr.self)) :
+    Inv (setHTTPClient s cs c).1 (setHTTPClient s cs c).2 ∧
+    (setHTTPClient s cs c).1.interceptors = s.interceptors ∧ (setHTTPClient s cs c).2.length = cs.length := by
+  unfold setHTTPClient
+  have hget : cs[c]? = some cs[c] := List.getElem?_eq_getElem hc
+  by_cases hne : some (((cs[c]?).getD none).getD Tr.dflt) ≠ s.lastTransport
+  · rw [if_pos hne]
+    refine ⟨⟨by simp [hc], rfl, ((cs[c]?).getD none).getD Tr.dflt, rfl, ?_⟩, rfl, by simp⟩
+    intro e
+    rcases h with ⟨h1, _⟩ | ⟨_, h2⟩
+    · exact hne (by rw [e, h1])
+    · apply h2 c
+      rw [hget] at e ⊢
+      cases hcc : cs[c] with
+      | none => simp [hcc] at e
+      | some t => simp [hcc] at e; simp [e]
+  · rw [if_neg hne]
+    have heq : some (((cs[c]?).getD none).getD Tr.dflt) = s.lastTransport := Classical.not_not.mp hne
+    rcases h with ⟨h1, h2⟩ | ⟨h1, _⟩
+    · rw [h1] at heq
+      simp only [Option.some.injEq] at heq
+      refine ⟨⟨?_, h1, h2⟩, rfl, by simp⟩
+      show (cs.set c (some (((cs[c]?).getD none).getD Tr.dflt)))[c]? = some (some Tr.self)
+      rw [heq]; simp [hc]
+    · rw [h1] at heq; simp at heq
+
+/-- a history: bookkeeping operations and `SetHTTPClient` calls in any order -/
+inductive HOp
+  | book (op : Op)
+  | set (c : Nat)
+
+def runH (st : SH × Clients) : List HOp → SH × Clients
+  | [] => st
+  | .book op :: h => runH (applyOp st.1 op, st.2) h
+  | .set c :: h => runH (setHTTPClient st.1 st.2 c) h
+
+def bookOf : List HOp → List Op
+  | [] => []
+  | .book op :: h => op :: bookOf h
+  | .set _ :: h => bookOf h
+
+def setsValid (n : Nat) : List HOp → Prop
+  | [] => True
+  | .book _ :: h => setsValid n h
+  | .set c :: h => c < n ∧ setsValid n h
+
+theorem runH_inv (st : SH × Clients) (h : List HOp) (hinv : Inv st.1 st.2) (hv : setsValid st.2.length h) :
+    Inv (runH st h).1 (runH st h).2 ∧ (runH st h).1.interceptors = Spec.book st.1.interceptors (bookOf h) := by
+  induction h generalizing st with
+  | nil => exact ⟨hinv, rfl⟩
+  | cons op h ih =>
+    cases op with
+    | book op =>
+      have hi : Inv (applyOp st.1 op) st.2 := by
+        have hf := C18_book_frame st.1 [op]
+        simp only [List.foldl_cons, List.foldl_nil] at hf
+        exact ⟨by rw [hf.1]; exact hinv.client, by rw [hf.2.2]; exact hinv.last, by rw [hf.2.1]; exact hinv.wrapped⟩
+      obtain ⟨h1, h2⟩ := ih (applyOp st.1 op, st.2) hi hv
+      refine ⟨h1, ?_⟩
+      simp only [runH, bookOf]
+      rw [h2]
+      have := C18_book st.1 [op]
+      simp only [List.foldl_cons, List.foldl_nil] at this
+      cases op <;> simp [this, Spec.book]
+    | set c =>
+      obtain ⟨hc, hv'⟩ := hv
+      obtain ⟨hi, his, hlen⟩ := setHTTPClient_inv st.1 st.2 c hc (Or.inl ⟨hinv.last, hinv.wrapped⟩)
+      obtain ⟨h1, h2⟩ := ih (setHTTPClient st.1 st.2 c) hi (by rw [hlen]; exact hv')
+      exact ⟨h1, by simp only [runH, bookOf]; rw [h2, his]⟩
+
+/-- **client clause.**  Create a SimpleHTTP with any client `c` and interceptors `is` (no client can refer
+    to the not-yet-existing SimpleHTTP), then apply ANY history of bookkeeping operations and
+    `SetHTTPClient` calls with any clients of the pool (the same ones again, fresh ones, nil / default /
+    custom transports).  Every request through the current client then runs the chain exactly once — the
+    prescribed call log for the bookkeeping history — and ends in a transport `t` that is not the
+    SimpleHTTP: no double wrap, no recursion. -/
+theorem C18_client (beh : Nat → Req → Req × Bool) (cs : Clients) (c : Nat) (is : List Nat) (h : List HOp)
+    (hc : c < cs.length) (hfresh : ∀ k : Nat, cs[k]? ≠ some (some Tr.self)) (hv : setsValid cs.length h) (req : Req) :
+    let st := runH (newSimpleHTTP cs c is) h
+    ∃ t, t ≠ .self ∧ st.1.clientTransport = some t ∧
+      clientDo beh st.1 st.2 req = Spec.visit beh t (Spec.book is (bookOf h)) req := by
+  intro st
+  obtain ⟨hi0, his0, hlen0⟩ := setHTTPClient_inv ⟨is, c, none, none⟩ cs c hc (Or.inr ⟨rfl, hfresh⟩)
+  obtain ⟨hinv, hbook⟩ := runH_inv (newSimpleHTTP cs c is) h hi0 (by unfold newSimpleHTTP; rw [hlen0]; exact hv)
+  obtain ⟨t, ht, hne⟩ := hinv.wrapped
+  refine ⟨t, hne, ht, ?_⟩
+  unfold clientDo
+  have hcl := hinv.client
+  simp only [st] at *
+  rw [hcl]
+  simp only [Option.getD_some]
+  rw [C18_visit beh _ t ht hne _ (by unfold fuelFor; omega) req, hbook]
+  unfold newSimpleHTTP
+  rw [his0]
+
+example : setsValid 3 [.set 1, .book (.add [4]), .set 1, .set 2, .set 0] ∧
+    (∀ k : Nat, ([some (Tr.stub 0), none, some Tr.dflt] : Clients)[k]? ≠ some (some Tr.self)) := by
+  refine ⟨by simp [setsValid], fun k => ?_⟩
+  rcases k with _ | _ | _ | k <;> simp
+
+end FpgoVerif.C18
